@@ -1562,9 +1562,126 @@ func (g *gen) strArgSweeps() {
 	}
 }
 
+// ---------- every arrangement of surrogate halves ----------
+func (g *gen) surrogateSweeps() {
+	halves := []uint16{0xD800, 0xD83D, 0xDBFF, 0xDC00, 0xDE00, 0xDFFF}
+	others := []uint16{'x', 0xD7FF, 0xE000}
+	units := append(append([]uint16{}, halves...), others...)
+	emit := func(u []uint16) {
+		g.strCase([]int{0}, u, "surrogates", true)
+		g.strCase([]int{1}, u, "surrogates", true)
+	}
+	for _, a := range units {
+		for _, b := range units {
+			emit([]uint16{a, b})
+			emit([]uint16{'x', a, b, 'y'})
+		}
+	}
+	for _, a := range halves {
+		for _, b := range halves {
+			for _, c := range halves {
+				emit([]uint16{a, b, c})
+			}
+			g.strCase([]int{1, 3}, []uint16{a, b}, "surrogates", true)
+			g.strCase([]int{0, 2}, []uint16{'x', a, b}, "surrogates", true)
+			g.strCase([]int{4}, []uint16{a, b}, "surrogates", true)
+			g.strCase([]int{4, 5}, []uint16{a, b, 'z'}, "surrogates", true)
+		}
+	}
+	for ctx := range g.ctx { // the URIError of a lead + lead pair, by identity, in every runtime
+		for _, u := range [][]uint16{{0xD800, 0xD800}, {0xD800, 0xDBFF}, {'x', 0xDBFF, 0xD83D, 'y'}, {0xD801, 0xD802}} {
+			g.strIdCase([]int{0}, u, ctx)
+			g.strIdCase([]int{1}, u, ctx)
+		}
+	}
+	// the same halves written as consecutive %uXXXX escapes (B.2.2: each is the code unit XXXX)
+	pu := func(v uint16, lower bool) string {
+		t := fmt.Sprintf("%%u%04X", v)
+		if lower {
+			t = "%u" + strings.ToLower(t[2:])
+		}
+		return t
+	}
+	for _, a := range halves {
+		for _, b := range halves {
+			for _, lower := range []bool{false, true} {
+				t := pu(a, lower) + pu(b, lower)
+				g.strCase([]int{5}, Units(t), "sweep:pctu", true)
+				g.strCase([]int{5}, Units("a"+t+"b"), "sweep:pctu", true)
+				g.strCase([]int{5, 1}, Units(t), "sweep:pctu", true)
+			}
+			g.strCase([]int{5}, Units(pu(a, false)+"x"+pu(b, false)), "sweep:pctu", true)
+			g.strCase([]int{5}, Units(pu(a, false)+pu(b, true)+pu(a, true)+pu(b, false)), "sweep:pctu", true)
+			g.strCase([]int{5}, append(Units(pu(a, false)), b), "sweep:pctu", true)
+			g.strCase([]int{5}, append([]uint16{a}, Units(pu(b, false))...), "sweep:pctu", true)
+			g.strCase([]int{5, 4}, Units(pu(a, false)+pu(b, false)+"%E9"), "sweep:pctu", true)
+		}
+	}
+	for _, t := range []string{"%uD83D%uDE00%uD83D%uDE01", "%uD83D%uDE00😀%uD83D%uDE00", "😀%uDE00", "%uD83D😀", "%uD800%uDC00%uDBFF%uDFFF", "%ud83d%UDE00", "%uD83D%u0041%uDE00", "%uD83D%DE%00", "%D8%3D%uDE00"} {
+		g.strCase([]int{5}, Units(t), "sweep:pctu", true)
+		g.strCase([]int{5, 1}, Units(t), "sweep:pctu", true)
+	}
+}
+
+// ---------- not flat next to the arguments with an exact result ----------
+func stepUlps(x float64, n int) float64 {
+	b := int64(math.Float64bits(math.Abs(x)))
+	if x < 0 {
+		return -math.Float64frombits(uint64(b - int64(n)))
+	}
+	if x == 0 {
+		return math.Float64frombits(uint64(int64(n)))
+	}
+	return math.Float64frombits(uint64(b + int64(n)))
+}
+
+func (g *gen) slopeCase(fn int, x1, x2 float64) {
+	if !(x1 < x2) {
+		return
+	}
+	name := fnNames[fn]
+	b1, t1 := g.numResult("Math." + name + "(" + JSNum(x1) + ")")
+	b2, t2 := g.numResult("Math." + name + "(" + JSNum(x2) + ")")
+	g.env.Add(fmt.Sprintf("CSlope %d %s %s %s %s", fn, Cdouble(x1), Cdouble(x2), b1, b2),
+		fmt.Sprintf("slope Math.%s(%s) -> %s ; Math.%s(%s) -> %s", name, JSNum(x1), t1, name, JSNum(x2), t2), "slope:"+name, true)
+}
+
+func (g *gen) slopeSweeps() {
+	pow10 := []float64{1, 10, 100, 1000, 1e5, 1e10, 1e15, 1e22, 0.1, 0.01, 1e-5, 2, 0.5, 1024, math.E}
+	anchors := map[int][]float64{
+		9:  {1, math.E, 2, 10, 0.5, 100, 7.38905609893065, 1e10},
+		26: pow10,
+		28: {1, 2, 4, 8, 1024, 0.5, 0.25, 10, 1 << 30, 1e15},
+		27: {0, 1, -0.5, 1e-10, 9, 99},
+		7:  {0, 1, -1, 2, 10, -10, 0.6931471805599453, 20},
+		25: {0, 1, -1, 1e-10, 0.6931471805599453, 5},
+		15: {1, 4, 9, 16, 2, 1e10, 0.25, 1e-10},
+		23: {1, 8, 27, 1000, 1e9, 0.125, 2},
+		3:  {0, 1, -1, 0.5, 10},
+	}
+	for _, fn := range []int{9, 26, 28, 27, 7, 25, 15, 23, 3} {
+		for _, a := range anchors[fn] {
+			for _, j := range []int{1, 4, 64, 300, 1 << 14, 1 << 20} {
+				if a == 0 {
+					d := math.Ldexp(float64(j), -60)
+					g.slopeCase(fn, 0, d)
+					g.slopeCase(fn, -d, 0)
+					continue
+				}
+				up, dn := stepUlps(a, j), stepUlps(a, -j)
+				if a < 0 {
+					up, dn = dn, up
+				}
+				g.slopeCase(fn, a, up)
+				g.slopeCase(fn, dn, a)
+			}
+		}
+	}
+}
+
 func runC13(env *Env) {
 	env.Import = "Otto.C13.Corr"
-	env.Rule = "Math: every function over a pool of IEEE specials (NaN, +-0, +-Infinity, +-1, +-0.5 and neighbours, 2^52..2^53 integers, half-integers, subnormals, extremes), their neighbours and random bit patterns, with 0..6 arguments, also as strings/booleans/null/undefined/objects; pow and atan2 table cells and exact rational powers; valueOf call logs; inverse/identity relations, anchors, monotone pairs; isNaN/isFinite over a ToNumber pool; strings over ASCII (reserved, marks, %), 2/3-byte boundaries, BMP, astral and lone surrogates through chains of encode/decode/escape/unescape; decode/unescape on percent-encodings with ill-formed octet sequences and 1-2 random mutations. every function x every boundary in every payload representation (results of |0 >>>0 << ~ >> & ^, lengths, parseInt, literals; Go int/int8..int64/uint..uint64/float32/float64 at their type minima and maxima through vm.Set and vm.Call); pow with integer and half-integer exponents whose exact result is subnormal, at the overflow boundary, or whose x^n overflows while x^-n is representable (exact oracle); every Math and global function with an argument whose ToNumber/ToString throws (5 kinds) at every position, conversions logged; class identity (instanceof / prototype identity / constructor link against the running runtime's own constructors, tamper isolation) of every URIError / TypeError / thrown error these functions raise, in a fresh runtime, in Copy(), in a copy of a copy and in a copy whose original was tampered with; every Math and global function with 1-3 logging arguments (each converted exactly once, left to right); arguments whose valueOf / toString re-enters Math.max/min/pow/..., isNaN, the URI coders (22 inner calls x every position x 2-5 arguments, nested); the six string functions on every non-string argument kind (missing, undefined, null, booleans, numbers, int32/uint32 results, wrapper objects, arrays, toString/valueOf objects, Go values through the API): ToString-based and a String primitive; non-trivial = distinct case with a special/neighbour argument, an unusual argument count, or a string containing a non-ASCII unit or '%'"
+	env.Rule = "Math: every function over a pool of IEEE specials (NaN, +-0, +-Infinity, +-1, +-0.5 and neighbours, 2^52..2^53 integers, half-integers, subnormals, extremes), their neighbours and random bit patterns, with 0..6 arguments, also as strings/booleans/null/undefined/objects; pow and atan2 table cells and exact rational powers; valueOf call logs; inverse/identity relations, anchors, monotone pairs; isNaN/isFinite over a ToNumber pool; strings over ASCII (reserved, marks, %), 2/3-byte boundaries, BMP, astral and lone surrogates through chains of encode/decode/escape/unescape; decode/unescape on percent-encodings with ill-formed octet sequences and 1-2 random mutations. every function x every boundary in every payload representation (results of |0 >>>0 << ~ >> & ^, lengths, parseInt, literals; Go int/int8..int64/uint..uint64/float32/float64 at their type minima and maxima through vm.Set and vm.Call); pow with integer and half-integer exponents whose exact result is subnormal, at the overflow boundary, or whose x^n overflows while x^-n is representable (exact oracle); every Math and global function with an argument whose ToNumber/ToString throws (5 kinds) at every position, conversions logged; class identity (instanceof / prototype identity / constructor link against the running runtime's own constructors, tamper isolation) of every URIError / TypeError / thrown error these functions raise, in a fresh runtime, in Copy(), in a copy of a copy and in a copy whose original was tampered with; every Math and global function with 1-3 logging arguments (each converted exactly once, left to right); arguments whose valueOf / toString re-enters Math.max/min/pow/..., isNaN, the URI coders (22 inner calls x every position x 2-5 arguments, nested); the six string functions on every non-string argument kind (missing, undefined, null, booleans, numbers, int32/uint32 results, wrapper objects, arrays, toString/valueOf objects, Go values through the API): ToString-based and a String primitive; every arrangement of two and three surrogate halves (lead+lead, trail+lead, ...) through the encoders, and the same halves as consecutive %uXXXX escapes through unescape; local slope of log/log10/log2/log1p/exp/expm1/sqrt/cbrt/atan between an argument with an exact result (1, 10^k, 2^k, e, squares, cubes, 0) and its neighbours 1 .. 2^20 ulps away; non-trivial = distinct case with a special/neighbour argument, an unusual argument count, or a string containing a non-ASCII unit or '%'"
 	g := &gen{env: env, vm: otto.New(), r: env.Rng}
 	r := env.Rng
 	g.pinned()
@@ -1580,6 +1697,8 @@ func runC13(env *Env) {
 	g.countSweeps()
 	g.reentrantSweeps()
 	g.strArgSweeps()
+	g.surrogateSweeps()
+	g.slopeSweeps()
 	for it := 0; env.Count() < env.N || len(g.pendingPow) > 0; it++ {
 		if len(g.pendingPow) > 0 && (it%8 == 0 || env.Count() >= env.N) {
 			xy := g.pendingPow[0]
@@ -1612,6 +1731,20 @@ func runC13(env *Env) {
 				}
 			}
 			g.throwCase(fn, vals, r.Intn(n), r.Intn(len(throwers)))
+		case k < 2 && r.Intn(2) == 0: // local slope at a random argument
+			fn := Pick(r, []int{9, 26, 28, 27, 7, 25, 15, 23, 3})
+			x := math.Pow(10, float64(r.Intn(9)-4)) * (1 + r.Float64())
+			if fn == 7 || fn == 25 || fn == 3 || fn == 27 {
+				x = (r.Float64()*2 - 1) * 20
+				if fn == 27 && x <= -1 {
+					x = -x
+				}
+			}
+			x2 := stepUlps(x, 1<<uint(r.Intn(21)))
+			if x2 < x {
+				x, x2 = x2, x
+			}
+			g.slopeCase(fn, x, x2)
 		case k < 2:
 			g.powBoundaryRandom()
 		case k < 4: // payload representations
